@@ -25,7 +25,9 @@ def search(prop, names, failure, repo):
     res = {'kind': 'bounded witness search on the real crate (vf_replay search %s)' % prop, 'failing_input': None,
            'output': out[-3000:]}
     # witnesses: `WITNESS property=.. case=.. replay=..` followed by indented expected/actual lines.  A crash-type witness
-    # (PANIC / ABORT / HANG) decides only the properties that are about crashes; for the others it is discounted.
+    # (PANIC / ABORT / HANG) in a DECODING case decides only the properties that are about crashes (a decoder crash
+    # would otherwise be reported by every property whose search feeds it that input); a panic while ENCODING
+    # inside the encodable domain counts for the encoder-side property that observed it.
     crash_props = ('C01', 'C02', 'C13', 'C18')
     blocks = re.split(r'(?m)^(?=WITNESS property=)', out)
     for bl in blocks:
@@ -34,7 +36,8 @@ def search(prop, names, failure, repo):
             continue
         ma = re.search(r'(?m)^\s+actual:\s*(.*)$', bl)
         crash = bool(ma and re.match(r'(PANIC|ABORT|HANG)', ma.group(1)))
-        if crash and prop not in crash_props:
+        encoder_side = bool(re.match(r'(encode|hide|writer-ops|bitmask)', m.group(2).strip()))
+        if crash and prop not in crash_props and not encoder_side:
             res.setdefault('discounted_crash_witnesses', []).append(m.group(1))
             continue
         args = m.group(2).strip().split()
